@@ -142,9 +142,17 @@ const (
 func (c *c04Checker) After(w *World, ev *Event) []Failure {
 	var fs []Failure
 	for _, id := range w.uids() {
+		if !neutralOwner(w.U[id].Cfg) {
+			continue // made by the plan's second, differently configured parser: its encode sets are its own
+		}
 		fs = append(fs, c04Check(fmt.Sprintf("u%d", id), w.Cur[id])...)
 	}
 	return fs
+}
+
+// neutralOwner: the URL belongs to a parser that behaves as the default one.
+func neutralOwner(cfg Config) bool {
+	return cfg.Profile == "" && (len(cfg.Opts) == 0 || len(cfg.Opts) == 1 && cfg.Opts[0].N == "report")
 }
 
 func c04Check(name string, o Obs) []Failure {
